@@ -1,12 +1,116 @@
-"""z3 string models of the str methods the small parsers use (assumed contracts)."""
+"""String models.
+
+ * z3 String terms for the small parsers (split on a literal separator, startswith/endswith,
+   concatenation): assumed contracts of the str methods, per-path queries.
+ * HumanStr / NumeralStr: a numeral-with-unit string abstracted to the value it denotes,
+   (D, p): the numeral denotes D / p  (D >= 0 integer mantissa digits, p = 10^k for k
+   fractional digits), with a CONCRETE unit suffix.  The regex that separates numeral and
+   unit is outside the encoding: `re.split("([0-9,.]+)", numeral+unit)` is an ASSUMED
+   contract (-> ["", numeral, unit]) checked by the grammar-exhaustive bounded tier of C19.
+"""
 from __future__ import annotations
 
 import z3
 
-from .values import ExcVal, PyRaise, Unsupported, is_z3, to_term, SliceV
+from .values import ExcVal, LibFunc, LibNS, PyRaise, RealV, SliceV, Unsupported, is_z3, to_term
 
 
+class NumeralStr:
+    """[0-9]+(.[0-9]*)? denoting D / p"""
+    pyvc_symbolic = True
+
+    def __init__(self, D, p, has_point):
+        self.D, self.p, self.has_point = D, p, has_point
+
+    def pyvc_int(self, I):
+        # int("12.5") raises ValueError; int("125") == 125
+        if I.path.branch(self.has_point):
+            raise PyRaise(ExcVal("ValueError", ("invalid literal for int() with base 10",)))
+        I.path.assume(self.p == 1)
+        return self.D
+
+    def pyvc_float(self, I):
+        """CPython float() is correctly rounded; D < 2^53 and p = 10^k <= 10^22 are exactly
+        representable, so float(numeral) = RN(D/p) = fp.div(RNE, D, p)  (profile F-bits)"""
+        from .floats import F64, RNE
+        I.path.assumptions_used.add(
+            "F-bits: float('d.ddd') = fp.div(RNE, D, 10^k) for mantissa digits D < 2^53, k <= 22 (correct rounding)")
+        fD = z3.fpToFP(RNE, z3.ToReal(self.D), F64)
+        fp_ = z3.fpToFP(RNE, z3.ToReal(self.p), F64)
+        return z3.fpDiv(RNE, fD, fp_)
+
+    def pyvc_len(self, I):
+        return I.path.fresh_int("numeral.len")
+
+    def pyvc_truthy(self, I):
+        return True
+
+
+class HumanStr:
+    """numeral + unit, unit concrete"""
+    pyvc_symbolic = True
+
+    def __init__(self, num: NumeralStr, unit: str):
+        self.num, self.unit = num, unit
+
+    def pyvc_getattr(self, I, attr, node):
+        if attr == "replace":
+            def replace(I, a, b):
+                if a == "," and b == "":
+                    return self      # thousands separators do not change the denoted value
+                raise Unsupported("HumanStr.replace")
+            return LibFunc("str.replace", replace)
+        raise Unsupported("HumanStr." + attr)
+
+
+class RegexV:
+    def __init__(self, pattern):
+        self.pattern = pattern
+
+    def pyvc_getattr(self, I, attr, node):
+        if attr == "split":
+            def split(I, s):
+                if isinstance(s, HumanStr) and self.pattern == "([0-9,.]+)":
+                    I.path.assumptions_used.add(
+                        "re.split('([0-9,.]+)', numeral+unit) == ['', numeral, unit] (assumed; C19 bounded tier)")
+                    return ["", s.num, s.unit]
+                raise Unsupported("re.split outside the modelled case")
+            return LibFunc("re.split", split)
+        raise Unsupported("regex." + attr)
+
+
+def decimal_ctor(I, x=0):
+    """decimal.Decimal(numeral): exact.  Arithmetic on Decimals is exact for <= 28 significant
+    digits (default context) -- modelled as exact rationals"""
+    I.path.assumptions_used.add("decimal.Decimal arithmetic is exact for <= 28 significant digits")
+    if isinstance(x, NumeralStr):
+        return RealV(z3.ToReal(x.D) / z3.ToReal(x.p))
+    if isinstance(x, int):
+        return RealV(z3.RealVal(x))
+    raise Unsupported("Decimal of " + type(x).__name__)
+
+
+def install_re(engine):
+    engine.lib["re"] = LibNS("re", {
+        "compile": LibFunc("re.compile", lambda I, pat, *a, **k: RegexV(pat)),
+        "U": 32, "IGNORECASE": 2,
+    })
+    engine.lib["decimal"] = LibNS("decimal", {
+        "Decimal": LibFunc("decimal.Decimal", decimal_ctor),
+        "InvalidOperation": __import__("pyvc.values", fromlist=["ExcClass"]).ExcClass("ArithmeticError"),
+    })
+
+
+# ---------------------------------------------------------------- z3 strings
 def str_getitem(I, s, key, node):
+    if isinstance(key, (int, z3.ArithRef)):
+        n = z3.Length(s)
+        idx = I.norm_index(key, n, node)
+        return z3.SubString(s, idx, 1)
+    if isinstance(key, SliceV) and key.step is None:
+        n = z3.Length(s)
+        lo, hi = I.slice_bounds(key, n)
+        return z3.SubString(s, lo, z3.If(hi > lo, hi - lo, 0))
     raise Unsupported("symbolic string subscript")
 
 
@@ -14,5 +118,38 @@ def str_to_int(I, s):
     raise Unsupported("int() of symbolic string")
 
 
+class SplitResult:
+    """s.split(sep) for a literal separator: number of parts decided by forking on
+    occurrences of the separator (up to 3 parts distinguished, then 'many')"""
+
+
 def str_method(I, s, name, args, kwargs, node):
+    s = to_term(s)
+    if name == "startswith":
+        return z3.PrefixOf(to_term(args[0]), s)
+    if name == "endswith":
+        return z3.SuffixOf(to_term(args[0]), s)
+    if name == "split" and len(args) == 1 and isinstance(args[0], str) and args[0]:
+        sep = args[0]
+        sv = z3.StringVal(sep)
+        L = len(sep)
+        # no separator -> [s]
+        i1 = z3.IndexOf(s, sv, 0)
+        if I.path.branch(i1 < 0):
+            return [s]
+        a = z3.SubString(s, 0, i1)
+        rest = z3.SubString(s, i1 + L, z3.Length(s) - i1 - L)
+        i2 = z3.IndexOf(rest, sv, 0)
+        if I.path.branch(i2 < 0):
+            return [a, rest]
+        b = z3.SubString(rest, 0, i2)
+        rest2 = z3.SubString(rest, i2 + L, z3.Length(rest) - i2 - L)
+        # three or more parts: the exact tail is not needed by the verified code (it raises)
+        return [a, b, rest2, ManyMore()]
+    if name == "strip":
+        raise Unsupported("str.strip on symbolic string")
     raise Unsupported(f"str.{name} on symbolic string")
+
+
+class ManyMore:
+    """marker: the split has at least this many parts (possibly more)"""
